@@ -176,3 +176,186 @@ fn u24_operations_are_ordered_by_key_only() {
 	std::mem::forget(a);
 	std::mem::forget(b);
 }
+
+// ================================================================== U30: point reads consult the commit overlay first, then the column
+// (log overlay and tables). DbInner::{get, get_size} on a real DbInner with one hash column; the commit overlay's map lookup
+// (CommitOverlay::get_ref) and HashColumn::{hash_key, get} are replaced by their contracts.
+macro_rules! db_harness {
+	($(#[$m:meta])* $name:ident, $body:expr) => {
+		#[kani::proof]
+		$(#[$m])*
+		#[kani::stub(crate::column::HashColumn::hash_key, stub_hash_key)]
+		#[kani::stub(crate::column::HashColumn::get, stub_column_get)]
+		#[kani::stub(CommitOverlay::get_ref, stub_overlay_get_ref)]
+		#[kani::stub(CommitOverlay::btree_get, stub_btree_get_unreachable)]
+		#[kani::stub(crate::btree::BTreeTable::get, stub_btree_table_get_unreachable)]
+		#[kani::stub(std::hash::RandomState::new, crate::verif_stubs::random_state_new)]
+		#[kani::stub(parking_lot::RawRwLock::lock_shared_slow, crate::verif_stubs::lock_shared_slow)]
+		#[kani::stub(parking_lot::RawRwLock::unlock_shared_slow, crate::verif_stubs::unlock_shared_slow)]
+		#[kani::stub(parking_lot::RawRwLock::lock_exclusive_slow, crate::verif_stubs::lock_exclusive_slow)]
+		#[kani::stub(parking_lot::RawRwLock::unlock_exclusive_slow, crate::verif_stubs::unlock_exclusive_slow)]
+		#[kani::stub(parking_lot::RawRwLock::lock_upgradable_slow, crate::verif_stubs::lock_upgradable_slow)]
+		#[kani::stub(parking_lot::RawRwLock::unlock_upgradable_slow, crate::verif_stubs::unlock_upgradable_slow)]
+		#[kani::stub(parking_lot::RawRwLock::upgrade_slow, crate::verif_stubs::upgrade_slow)]
+		#[kani::stub(parking_lot::RawRwLock::downgrade_slow, crate::verif_stubs::downgrade_slow)]
+		#[kani::stub(parking_lot::RawRwLock::downgrade_to_upgradable_slow, crate::verif_stubs::downgrade_to_upgradable_slow)]
+		#[kani::stub(parking_lot::RawRwLock::try_lock_shared_slow, crate::verif_stubs::try_lock_shared_slow)]
+		#[kani::stub(parking_lot::RawRwLock::try_lock_upgradable_slow, crate::verif_stubs::try_lock_upgradable_slow)]
+		#[kani::stub(parking_lot::RawRwLock::try_upgrade_slow, crate::verif_stubs::try_upgrade_slow)]
+		#[kani::stub(parking_lot::RawMutex::bump_slow, crate::verif_stubs::mutex_bump_slow)]
+		#[kani::stub(parking_lot::RawMutex::lock_slow, crate::verif_stubs::mutex_lock_slow)]
+		#[kani::stub(parking_lot::RawMutex::unlock_slow, crate::verif_stubs::mutex_unlock_slow)]
+		#[kani::stub(parking_lot::Condvar::notify_one_slow, crate::verif_stubs::condvar_notify_one_slow)]
+		#[kani::stub(parking_lot::Condvar::notify_all_slow, crate::verif_stubs::condvar_notify_all_slow)]
+		#[kani::stub(parking_lot::Condvar::wait_until_internal, crate::verif_stubs::condvar_wait_until_internal)]
+		#[kani::stub(std::fmt::format, crate::verif_stubs::fmt_format)]
+		fn $name() {
+			$body
+		}
+	};
+}
+
+// the database of these harnesses has one *hash* column; the column vector lives on the heap, where CBMC's symbolic executor
+// no longer sees the variant as a constant and would explore the btree branch of DbInner::get: its callees are stubbed
+// with a failing assertion (so reaching them fails the proof, which the solver refutes)
+pub(crate) fn stub_btree_get_unreachable<'a>(_o: &'a CommitOverlay, _key: &[u8]) -> Option<Option<&'a RcValue>> {
+	assert!(false, "U30.btree_branch_not_reached_for_a_hash_column");
+	None
+}
+pub(crate) fn stub_btree_table_get_unreachable<L: crate::log::LogQuery>(_key: &[u8], _log: &L, _values: crate::column::TablesRef) -> Result<Option<Vec<u8>>> {
+	assert!(false, "U30.btree_branch_not_reached_for_a_hash_column");
+	Ok(None)
+}
+pub(crate) static mut HK: Key = [0u8; 32];
+pub(crate) static mut HK_N: usize = 0;
+pub(crate) fn stub_hash_key(_c: &crate::column::HashColumn, _key: &[u8]) -> Key {
+	unsafe {
+		HK_N += 1;
+		HK
+	}
+}
+// commit overlay lookup by contract: 0 = the key has no queued write; 1 = its latest queued write is a removal;
+// 2 = its latest queued write is a value (two bytes, arbitrary)
+pub(crate) static mut OV_MODE: u8 = 0;
+pub(crate) static mut OV_N: usize = 0;
+pub(crate) static mut OV_KEY_OK: bool = true;
+pub(crate) static mut OV_VAL: [u8; 2] = [0; 2];
+pub(crate) fn stub_overlay_get_ref<'a>(_o: &'a CommitOverlay, key: &[u8]) -> Option<Option<&'a RcValue>> {
+	unsafe {
+		OV_N += 1;
+		OV_KEY_OK = OV_KEY_OK && key.len() == 32 && key[0] == HK[0] && key[31] == HK[31];
+		match OV_MODE {
+			0 => None,
+			1 => Some(None),
+			_ => {
+				let v: &'static RcValue = Box::leak(Box::new(RcValue::from(vec![OV_VAL[0], OV_VAL[1]])));
+				Some(Some(v))
+			},
+		}
+	}
+}
+// HashColumn::get by contract (U29 / U13): what the column (log overlay, then tables) holds for the hashed key
+pub(crate) static mut CG_N: usize = 0;
+pub(crate) static mut CG_HIT: bool = false;
+pub(crate) static mut CG_KEY_OK: bool = true;
+pub(crate) static mut CG_VAL: [u8; 3] = [0; 3];
+pub(crate) fn stub_column_get<L: crate::log::LogQuery>(_c: &crate::column::HashColumn, key: &Key, _log: &L) -> Result<Option<(Value, u32)>> {
+	unsafe {
+		CG_N += 1;
+		CG_KEY_OK = CG_KEY_OK && key[0] == HK[0] && key[31] == HK[31];
+		if CG_HIT {
+			Ok(Some((vec![CG_VAL[0], CG_VAL[1], CG_VAL[2]], 5)))
+		} else {
+			Ok(None)
+		}
+	}
+}
+fn mk_db_one_hash_column() -> std::mem::ManuallyDrop<DbInner> {
+	unsafe {
+		HK = kani::any();
+		HK_N = 0;
+		OV_MODE = kani::any();
+		OV_N = 0;
+		OV_KEY_OK = true;
+		OV_VAL = kani::any();
+		CG_N = 0;
+		CG_HIT = kani::any();
+		CG_KEY_OK = true;
+		CG_VAL = kani::any();
+	}
+	std::mem::ManuallyDrop::new(DbInner {
+		columns: vec![Column::Hash(crate::column::verif_column::mk_hash_column(16, false))],
+		options: Options {
+			path: std::path::PathBuf::new(),
+			columns: vec![ColumnOptions::default()],
+			sync_wal: true,
+			sync_data: true,
+			stats: false,
+			salt: None,
+			compression_threshold: HashMap::new(),
+		},
+		shutdown: AtomicBool::new(false),
+		log: crate::log::verif_log::mk_log(),
+		commit_queue: Mutex::new(CommitQueue { record_id: 0, bytes: 0, commits: VecDeque::new() }),
+		commit_queue_full_cv: Condvar::new(),
+		log_worker_wait: WaitCondvar::new(),
+		commit_worker_wait: Arc::new(WaitCondvar::new()),
+		commit_overlay: RwLock::new(vec![CommitOverlay::new()]),
+		trees: RwLock::new(HashMap::new()),
+		log_queue_wait: WaitCondvar::new(),
+		flush_worker_wait: Arc::new(WaitCondvar::new()),
+		cleanup_worker_wait: WaitCondvar::new(),
+		cleanup_queue_wait: WaitCondvar::new(),
+		iteration_lock: Mutex::new(()),
+		last_enacted: AtomicU64::new(0),
+		next_reindex: AtomicU64::new(0),
+		bg_err: Mutex::new(None),
+		db_version: crate::options::CURRENT_VERSION,
+		lock_file: unsafe { std::mem::MaybeUninit::uninit().assume_init() },
+	})
+}
+db_harness!(#[kani::unwind(5)] u30_get_consults_commit_overlay_then_column, {
+	let db = mk_db_one_hash_column();
+	let user_key: [u8; 4] = kani::any();
+	let r = ok(db.get(0, &user_key, true));
+	let (mode, hit) = unsafe { (OV_MODE, CG_HIT) };
+	assert!(unsafe { HK_N } == 1 && unsafe { OV_KEY_OK } && unsafe { CG_KEY_OK }, "U30.get.looks_up_the_hashed_key_everywhere");
+	match r {
+		None => assert!(false, "U30.get.no_error"),
+		Some(got) => {
+			if mode == 1 {
+				// the latest queued write is a removal: the key is absent, whatever the tables still hold
+				assert!(got.is_none() && unsafe { CG_N } == 0, "U30.get.queued_removal_hides_stored_value");
+			} else if mode >= 2 {
+				// the latest queued write wins over whatever the tables still hold
+				match &got {
+					Some(v) => assert!(v.len() == 2 && v[0] == unsafe { OV_VAL[0] } && v[1] == unsafe { OV_VAL[1] }, "U30.get.queued_value_wins"),
+					None => assert!(false, "U30.get.queued_value_wins"),
+				}
+				assert!(unsafe { CG_N } == 0, "U30.get.column_not_consulted_when_overlay_decides");
+			} else {
+				assert!(unsafe { CG_N } == 1, "U30.get.column_consulted_exactly_once_on_overlay_miss");
+				match &got {
+					Some(v) => assert!(hit && v.len() == 3 && v[0] == unsafe { CG_VAL[0] } && v[2] == unsafe { CG_VAL[2] }, "U30.get.overlay_miss_returns_the_column_value"),
+					None => assert!(!hit, "U30.get.overlay_miss_absent_iff_column_absent"),
+				}
+			}
+			std::mem::forget(got);
+		},
+	}
+	kani::cover!(mode == 0 && hit, "reached");
+});
+db_harness!(#[kani::unwind(5)] u30_get_size_is_the_length_of_what_get_returns, {
+	let db = mk_db_one_hash_column();
+	let user_key: [u8; 4] = kani::any();
+	let r = ok(db.get_size(0, &user_key));
+	let (mode, hit) = unsafe { (OV_MODE, CG_HIT) };
+	match r {
+		None => assert!(false, "U30.get_size.no_error"),
+		Some(got) => {
+			let want = if mode == 1 { None } else if mode >= 2 { Some(2u32) } else if hit { Some(3u32) } else { None };
+			assert!(got == want, "U30.get_size.equals_length_of_the_value_get_returns");
+		},
+	}
+	kani::cover!(mode == 0 && hit, "reached");
+});
